@@ -19,6 +19,8 @@ def run(tier, seed):
         k = rng.choice(KINDS); a = rng.choice([1e-6, 1e-3, 0.01, 0.02, 0.1, 0.5, 0.99]) if rng.random() < 0.4 else 10 ** rng.uniform(-6, math.log10(0.99))
         if rng.random() < 0.5: specs.append("%s:a:%s" % (k, f2h(a)))
         else: specs.append("%s:g:%s:%s" % (k, f2h(gamma_of(k, a)), f2h(rng.choice([0.0, 1.0, -2.5, 0.125, rng.uniform(-1e3, 1e3), float(rng.randint(-10**5, 10**5)), 1e-7]))))
+    for k in KINDS:
+        for a in (0.01, 1e-4): specs.append("%s:g:%s:%s" % (k, f2h(gamma_of(k, a)), f2h(0.0)))          # offset exactly 0 (not the default of the linear and cubic kinds)
     facts = sketchcheck.learn_specs(pid, specs) if ok else {}
     specs = [s for s in specs if s in facts]
     builders = []
@@ -37,6 +39,10 @@ def run(tier, seed):
             b.emit("meq m " + m2, "1"); b.emit("meq %s m" % m2, "1")
         # binary form
         b.emit("menc e m", "ok"); b.emit("mdec r e", lambda a, env: None if a.startswith("ok 17") else "decoding a mapping block answered %r" % a); same_behaviour("r")
+        # ... and the decoder has no memory: a sibling (same kind and base, another offset) decoded just before does not leak into this one
+        sib = "%s:g:%s:%s" % (s.split(":")[0], f2h(f["gamma"]), f2h(f["off"] + rng.choice([40.0, -1.0, 0.5])))
+        b.emit("mnew sib " + sib, "ok"); b.emit("menc es sib", "ok"); b.emit("mdec rs es"); b.emit("mdec r2 e"); same_behaviour("r2")
+        b.emit("mdec rs2 es"); b.emit("meq rs2 sib", "1"); b.emit("meq rs2 m", "0")
         # protobuf message and streaming forms
         b.emit("mproto Q m", "ok"); b.emit("mfromproto p Q", "ok"); same_behaviour("p")
         b.emit("mstream sb m", "ok"); b.emit("mpunmarshal Q2 sb", "ok"); jq = b.emit("mpobs Q"); b.emit("mpobs Q2", ("same", jq))
